@@ -840,6 +840,21 @@ func hashInputPieces(fn *core.Func, g *core.Graph) (pieces []hashPiece, ok bool)
 				if tv, isT := info.Types[x.Fun]; isT && tv.IsType() && len(x.Args) == 1 && core.IsNil(info, x.Args[0]) {
 					continue
 				}
+				if key == "builtin.append" && len(x.Args) >= 2 {
+					// data := append(base, b0, b1, ...): the base, then the elements
+					// (whether this may write into base's spare capacity is rule C18-R7's question)
+					pieces = append(pieces, hashPiece{hashArg(fn, x.Args[0]), dv})
+					if x.Ellipsis.IsValid() {
+						pieces = append(pieces, hashPiece{hashArg(fn, x.Args[1]), dv})
+					} else {
+						var parts []string
+						for _, el := range x.Args[1:] {
+							parts = append(parts, byteExpr(fn, el))
+						}
+						pieces = append(pieces, hashPiece{strings.Join(parts, ","), dv})
+					}
+					continue
+				}
 				ok = false
 			default:
 				if !core.IsNil(info, init) {
